@@ -41,6 +41,7 @@
 -/
 import CachedModel.LayerB
 import CachedProofs.Lemmas.Weights
+import CachedProofs.Lemmas.EvictId
 import CachedProofs.Lemmas.Admission
 
 namespace Cached
@@ -522,7 +523,7 @@ inductive STrans (b : BState) : BState → Prop where
   | sub (now shard rest id wk) : wuFree b .sweeper = true → b.sw = .sub now shard rest id wk →
       STrans b { b with g := { b.g with adm := { b.g.adm with used := b.g.adm.used - wk.weight } }, wuOwner := some .sweeper, sw := .store now shard rest id wk }
   | store (now shard rest id wk) : b.sw = .store now shard rest id wk → storeWritable b wk.key none = true →
-      STrans b (sweepNext { b with g := applyEvict b.g (id, wk.key, wk.weight), wuOwner := none } now shard rest)
+      STrans b (sweepNext { b with g := applyEvictId b.g (id, wk.key, wk.weight), wuOwner := none } now shard rest)
   | fin : b.sw = .fin → STrans b { b with sw := .begin, g := { b.g with sweeperAlive := b.g.sweeperKeep } }
 
 theorem sweeperAct_trans {b b' : BState} {v : Option Nat} (h : sweeperAct b v = .ok b') : STrans b b' := by
@@ -1523,6 +1524,14 @@ theorem mem_usedIds {b : BState} {u : Nat} : u ∈ usedIds b ↔
     (∃ pc ∈ b.cl, pc.usedId? = some u) ∨ b.w.usedId? = some u := by
   simp only [usedIds, List.mem_append, List.mem_map, List.mem_filterMap, Option.mem_toList, or_assoc]
 
+/-- the sweeper's hook only ever takes pairs out of the store -/
+theorem applyEvictId_mem_store {g : State} {e : Evicted} {p : Nat × Entry} (h : p ∈ (applyEvictId g e).store) :
+    p ∈ g.store := by
+  rw [Cached.applyEvictId_store] at h
+  split at h
+  · exact AMap.mem_del' h
+  · exact h
+
 /-- the only id the worker makes "used" is the id of the put it is storing -/
 theorem wtrans_used {b b' : BState} (h : WTrans b b') (u : Nat) (hu : u ∈ usedIds b') :
     u ∈ usedIds b ∨ ∃ c, b.w = .storePut c ∧ u = c.id := by
@@ -1671,13 +1680,13 @@ theorem strans_used {b b' : BState} (h : STrans b b') (u : Nat) (hu : u ∈ used
   cases h
   all_goals (try unfold sweepNext at hu)
   all_goals (try split at hu)
-  all_goals simp [SPc.ids, applyEvict_store, *] at *
+  all_goals simp [SPc.ids, *] at *
   all_goals (try assumption)
   case entryExpired now shard rest id p hfind hs =>
     have h1 := List.mem_of_find?_eq_some hfind
     have h2 : p.1 = id := by simpa using List.find?_some hfind
     grind [AMap.mem_del']
-  all_goals grind [AMap.mem_del']
+  all_goals grind [AMap.mem_del', applyEvictId_mem_store]
 
 theorem idInv_strans {b b' : BState} (hi : IdInv b) (h : STrans b b') : IdInv b' := by
   obtain ⟨hw, hcl, hq, hn, _, _⟩ := strans_frame h
@@ -2102,7 +2111,7 @@ theorem kwInv_strans {b b' : BState} (hs : KwInv b) (h : STrans b b') : KwInv b'
   all_goals (try unfold sweepNext)
   all_goals (try split)
   all_goals constructor
-  all_goals (try simp only [applyEvict_adm])
+  all_goals (try simp only [applyEvictId_adm])
   all_goals (try assumption)
   all_goals simp [SPc.victim?, *] at *
   all_goals (try assumption)
@@ -2117,7 +2126,7 @@ theorem acctInv_strans {b b' : BState} (hk : KwInv b) (hs : AcctInv b) (h : STra
   all_goals (try unfold sweepNext)
   all_goals (try split)
   all_goals constructor
-  all_goals (try simp only [applyEvict_adm])
+  all_goals (try simp only [applyEvictId_adm])
   all_goals (try assumption)
   all_goals simp [pendingAdd, pendingSub, SPc.victim?, *] at *
   all_goals (try assumption)
